@@ -126,13 +126,22 @@ pub enum VRes {
     Collected(Vec<(Vec<(String, String)>, f64)>),
 }
 
-pub const TUPLES2: &[[&str; 2]] = &[["ab", "c"], ["a", "bc"], ["", "abc"], ["é", "x"], ["abc", ""], ["x", "é"], ["a\u{ff}", "b"], ["a", "\u{ff}b"], ["a\u{1f}", ""], ["a", "\u{1f}"]];
-pub const TUPLES1: &[&str] = &["a", "b", "", "é", "ab", "\u{ff}", "a\u{0}"];
+pub const TUPLES2: &[[&str; 2]] = &[["ab", "c"], ["a", "bc"], ["", "abc"], ["é", "x"], ["abc", ""], ["x", "é"], ["a\u{ff}", "b"], ["a", "\u{ff}b"], ["a\u{1f}", ""], ["a", "\u{1f}"], ["/api/v1/organizations/acme/projects/00001", "k"], ["/api/v1/organizations/acme/projects/00002", "k"]];
+pub const TUPLES1: &[&str] = &["a", "b", "", "é", "ab", "\u{ff}", "a\u{0}", "/api/v1/organizations/acme/projects/00001", "/api/v1/organizations/acme/projects/00002"];
 
 fn gen_plan(seed: u64) -> VecPlan {
     let mut r = Rng::new(seed, 1);
     let two = r.chance(65);
-    let labels: Vec<String> = if two { vec!["l1".into(), "l2".into()] } else { vec!["l1".into()] };
+    // declared order is not always the alphabetical one (map-form requests must follow the declaration)
+    let labels: Vec<String> = if two {
+        if r.chance(50) {
+            vec!["l2".into(), "l1".into()]
+        } else {
+            vec!["l1".into(), "l2".into()]
+        }
+    } else {
+        vec!["l1".into()]
+    };
     let npool = 2 + r.below(3) as usize;
     let mut tuples: Vec<Vec<String>> = vec![];
     if two {
